@@ -191,3 +191,16 @@ def gen_truncations(rng, headers, every=1):
         for c in cuts:
             ops.append("v2 " + spec(h[:c]))
     return ops
+
+
+BIG_TRAILERS = [65519, 65520, 65529, 65535, 65536, 65537, 65552, 70000, 131077]
+
+
+def gen_big_trailers(rng, headers):
+    """Accepted headers followed by about 64 KiB (and more) of payload: length arithmetic
+    narrower than usize shows up only here."""
+    out = []
+    for h in headers:
+        for n in BIG_TRAILERS:
+            out.append(h + bytes([rng.choice([0, 0x41, 0xFF])]) * n)
+    return out
